@@ -4527,3 +4527,50 @@ func condRootedAtModuleCall(v ssa.Value) bool {
 	}
 	return false
 }
+
+// ruleTypeExprsNotShared: the type renderer hands out expressions it has just built. An expression taken from a table was
+// rendered for another call - possibly for another output file, whose import names it carries - and sharing one node between
+// two places of the output makes a later rewrite of one show up in the other.
+func ruleTypeExprsNotShared(c *Ctx, rule string) {
+	L := c.L
+	n := 0
+	for _, fn := range pkgFuncs(L, genPkg) {
+		if fn.Parent() != nil {
+			continue
+		}
+		sg := fn.Signature.String()
+		if !strings.HasSuffix(sg, "(go/ast.Expr, error)") || !strings.Contains(sg, "go/types.") {
+			continue
+		}
+		for _, r := range returnsOf(fn) {
+			if len(r.Results) != 2 || isNilConst(r.Results[0]) {
+				continue
+			}
+			n++
+			bad := ""
+			var visit func(v ssa.Value, d int)
+			visit = func(v ssa.Value, d int) {
+				if d > 5 {
+					return
+				}
+				switch x := resolve(v).(type) {
+				case *ssa.Lookup:
+					bad = "looked up in " + x.X.Type().String()
+				case *ssa.Extract:
+					if lk, ok := x.Tuple.(*ssa.Lookup); ok {
+						bad = "looked up in " + lk.X.Type().String()
+					}
+				case *ssa.Phi:
+					for _, e := range x.Edges {
+						visit(e, d+1)
+					}
+				case *ssa.MakeInterface:
+					visit(x.X, d+1)
+				}
+			}
+			visit(r.Results[0], 0)
+			c.check(bad == "", rule, fnName(fn)+":type-expression-fresh", L.pos(r.Pos()), "the type renderer returns an expression built in this call (never one remembered from an earlier call)", bad)
+		}
+	}
+	c.floor(rule, "returns of the type renderer", n, 5)
+}
